@@ -17,6 +17,10 @@ pub enum Case {
     SixDb { cfg: Config, ph: f64 },
     /// calculate_cutoff over all lengths 32..=2048 x 6 windows
     Table,
+    /// frequency response of the filter table itself, read out tap by tap through the public scalar
+    /// kernel and evaluated by direct DTFT: stopband (up to the oversampled Nyquist, i.e. all image
+    /// bands), passband flatness and the -6 dB point, independent of any stream
+    Proto { f32: bool, l8: usize, os: usize, window: u8, fc: f32, seed: u64 },
 }
 
 pub struct C02;
@@ -187,6 +191,113 @@ fn run_sixdb<T: SampleX>(cfg0: &Config, ph: f64) -> Outcome {
     o
 }
 
+fn run_proto(f32_: bool, l8: usize, os: usize, window: u8, fc: f32, seed: u64) -> Outcome {
+    use rubato::sinc_interpolator::{ScalarInterpolator, SincInterpolator};
+    let mut o = Outcome::default();
+    let l = 8 * l8.clamp(8, 64);
+    // os >= 2: with a single sinc per sample the stopband tail and its mirror image add up at the Nyquist
+    // frequency of the table, which is a property of the sampling of the table, not of the filter
+    let os = os.clamp(2, 8);
+    let w = (window % 6) as usize;
+    o.class("prototype-response");
+    o.class(format!("window:{}", WINDOW_NAMES[w]));
+    // read the table out: tap p of sub-filter s is the response to a unit impulse at p
+    let mut h = vec![0.0f64; l * os];
+    if f32_ {
+        let k = ScalarInterpolator::<f32>::new(l, os, fc, window_of(window));
+        let mut imp = vec![0.0f32; l + 1];
+        for p in 0..l {
+            imp[p] = 1.0;
+            for s in 0..os {
+                h[os * p + (os - 1 - s)] = k.get_sinc_interpolated(&imp, 0, s) as f64;
+            }
+            imp[p] = 0.0;
+        }
+    } else {
+        let k = ScalarInterpolator::<f64>::new(l, os, fc, window_of(window));
+        let mut imp = vec![0.0f64; l + 1];
+        for p in 0..l {
+            imp[p] = 1.0;
+            for s in 0..os {
+                h[os * p + (os - 1 - s)] = k.get_sinc_interpolated(&imp, 0, s);
+            }
+            imp[p] = 0.0;
+        }
+    }
+    let cc: f64 = rubato::calculate_cutoff::<f64>(l, window_of(window));
+    let delta = 1.0 - cc;
+    let fcd = fc as f64;
+    let (pe, edge) = (fcd - delta, fcd + delta);
+    let pi = std::f64::consts::PI;
+    let n = h.len();
+    // |H(nu)| / os, nu in input-Nyquist units; the table runs at os times the input rate
+    let resp = |nu: f64| -> f64 {
+        let (mut re, mut im) = (0.0, 0.0);
+        let w0 = pi * nu / os as f64;
+        for (k, v) in h.iter().enumerate() {
+            let ph = w0 * (k as f64 - (n / 2) as f64);
+            re += v * ph.cos();
+            im -= v * ph.sin();
+        }
+        (re * re + im * im).sqrt() / os as f64
+    };
+    let unit = |k: u64| (crate::signal::hash64(seed ^ crate::signal::hash64(k)) >> 11) as f64 / (1u64 << 53) as f64;
+    let dc = resp(0.0);
+    let single = if f32_ { 64.0 * f32::EPSILON as f64 } else { 0.0 };
+    if (dc - 1.0).abs() > 1e-9 + single {
+        o.fail("prototype-dc-gain", format!("DC gain of the table is {} (L {}, os {}, window {}, cutoff {})", dc, l, os, WINDOW_NAMES[w], fc));
+        return o;
+    }
+    // stopband: a fixed grid over [edge, os] plus random points, concentrated just above the edge
+    // the dense scan finds the sidelobe peaks right behind the guard band, which reach up to 2 dB above the
+    // stated figure (the edge is located by a fitted approximation): 3 dB measurement tolerance + 3 dB
+    let rej = undb(-(REJ_DB[w] - 3.0)).max(single);
+    let top = os as f64;
+    let mut worst = f64::MIN;
+    // same guard band as the stream check: the edge itself is located by a fitted approximation
+    let edge = edge + 0.25 * delta;
+    if edge < top {
+        let mut pts: Vec<f64> = (0..300).map(|i| edge + (top - edge) * (i as f64 / 299.0)).collect();
+        for i in 0..300u64 {
+            pts.push(edge + (3.0 * delta).min(top - edge) * unit(i));
+        }
+        for nu in pts {
+            let a = resp(nu);
+            if db(a / rej) > worst && db(a / rej) > -9.0 && std::env::var("RV_DUMP").is_ok() {
+                eprintln!("PROTO w={} L={} os={} fc={:.4} cc={:.4} nu={:.5} edge={:.5} d={:.3} margin={:.2}", w, l, os, fc, cc, nu, edge, (nu - (fcd + delta)) / delta, db(a / rej));
+            }
+            worst = worst.max(db(a / rej));
+            if !(a <= rej) {
+                o.fail(format!("prototype-stopband:{}", WINDOW_NAMES[w]), format!("table response at {:.5} x input Nyquist (stopband edge {:.5}) is {:.1} dB, allowed {:.1} dB; L {}, os {}, cutoff {}", nu, edge, db(a), db(rej), l, os, fc));
+                return o;
+            }
+        }
+        o.maxi(&format!("worst_prototype_stopband_margin_db:{}(neg=ok)", WINDOW_NAMES[w]), worst);
+    }
+    // passband flatness and the -6 dB point
+    let tolw = if w <= 1 { 0.01 } else { 0.001 };
+    if pe > 0.0 {
+        for i in 0..100u64 {
+            let nu = pe * unit(1000 + i);
+            let a = resp(nu);
+            if !((a - 1.0).abs() <= tolw + single) {
+                o.fail(format!("prototype-passband:{}", WINDOW_NAMES[w]), format!("table response at {:.5} x input Nyquist (passband edge {:.5}) is {:.6}, allowed 1 +- {}; L {}, os {}, cutoff {}", nu, pe, a, tolw, l, os, fc));
+                return o;
+            }
+        }
+    }
+    // (not where the transition band overlaps its own mirror image at the oversampled Nyquist)
+    if pe > 0.0 && fcd + 2.0 * delta <= top {
+        let a = db(resp(fcd));
+        if !((a + 6.0206).abs() <= 0.1) {
+            o.fail("prototype-six-db", format!("table response at the cutoff {} is {:.3} dB instead of -6.02 dB (L {}, os {}, window {})", fc, a, l, os, WINDOW_NAMES[w]));
+            return o;
+        }
+    }
+    o.nontrivial = edge < top;
+    o
+}
+
 fn run_table() -> Outcome {
     let mut o = Outcome::default();
     o.class("calculate_cutoff-table");
@@ -225,7 +336,7 @@ impl Property for C02 {
         "C02"
     }
     fn rule(&self) -> String {
-        "cases = sinc or FFT configuration as in C01 and one unit tone between the stopband edge (plus a guard band of 0.25 transition half-widths) and the input Nyquist, down- and up-sampling; the output lines of the tone and of its images are predicted, fitted by least squares (lines closer than 8/M merged with a coherent-sum allowance) and each must be below the stated rejection figure - 3 dB measurement tolerance, as must the remainder (FFT: 100 dB). Plus: the -6.02 +- 0.1 dB point at f_cutoff for ratio >= 1 (generated), and calculate_cutoff on all 12 102 (length 32..=2048, window) pairs: inside (0,1), strictly increasing, f32 == f64 (forced, exhaustive). non-trivial = every case with a non-empty stopband. distinct = distinct case JSON digest.".into()
+        "cases = sinc or FFT configuration as in C01 and one unit tone between the stopband edge (plus a guard band of 0.25 transition half-widths) and the input Nyquist, down- and up-sampling; the output lines of the tone and of its images are predicted, fitted by least squares (lines closer than 8/M merged with a coherent-sum allowance) and each must be below the stated rejection figure - 3 dB measurement tolerance, as must the remainder (FFT: 100 dB). Plus: the -6.02 +- 0.1 dB point at f_cutoff for ratio >= 1 (generated), and calculate_cutoff on all 12 102 (length 32..=2048, window) pairs: inside (0,1), strictly increasing, f32 == f64 (forced, exhaustive); and the frequency response of the filter table itself (read out tap by tap through the public scalar kernel, evaluated by DTFT on 600 stopband points up to the oversampled Nyquist (stated figure - 6 dB: the dense scan finds sidelobe peaks behind the guard band up to 2 dB above the stated figure), 100 passband points and at the cutoff). non-trivial = every case with a non-empty stopband. distinct = distinct case JSON digest.".into()
     }
     fn assumptions(&self) -> Vec<String> {
         vec![
@@ -264,7 +375,11 @@ impl Property for C02 {
             cfg.f_cutoff = if at_cc { cc } else { cfg.f_cutoff.min(0.97).max(0.4) };
             Case::SixDb { cfg, ph }
         });
-        prop_oneof![6 => stop_sinc, 2 => stop_fft, 1 => six].boxed()
+        let proto = (any::<bool>(), 8usize..=64, prop_oneof![1 => Just(2usize), 1 => Just(3usize), 3 => 2usize..=8], 0u8..6, prop_oneof![1 => Just(-1.0f32), 1 => Just(0.95f32), 2 => 0.2f32..1.0], any::<u64>()).prop_map(|(f32, l8, os, window, fc, seed)| {
+            let cc: f32 = rubato::calculate_cutoff::<f32>(8 * l8, window_of(window));
+            Case::Proto { f32, l8, os, window, fc: if fc < 0.0 { cc } else { fc }, seed }
+        });
+        prop_oneof![6 => stop_sinc, 2 => stop_fft, 1 => six, 2 => proto].boxed()
     }
     fn cases(&self, tier: Tier) -> u32 {
         if tier.thorough() {
@@ -293,6 +408,7 @@ impl Property for C02 {
                 }
             }
             Case::Table => run_table(),
+            Case::Proto { f32, l8, os, window, fc, seed } => run_proto(*f32, *l8, *os, *window, *fc, *seed),
         }
     }
     fn health(&self, a: &Aggregate) -> Option<String> {
